@@ -64,6 +64,8 @@ def gen_plan(rng, index, tier):
             bp["even"] = True
     if rng.random() < 0.3:
         bp["solid_plate"] = True  # a bottom block that is one solid piece (no coolant filling up the pitch)
+    if rng.random() < 0.2:
+        bp["voidgap"] = True  # the fuel slug has outgrown the cladding's bore: a Void gap of negative volume
     cfg = {"reactor": "gen", "blueprint": bp, "settings": {"nCycles": 1, "burnSteps": 1}, "actors": []}
     steps = []
     for _ in range(rng.randint(4, 30)):
@@ -232,6 +234,14 @@ class Runner:
                         m_none = float(obj_.getMass(spec))
                         if m_none != 0.0:
                             self.fail("C02.additivity", f"step {k}: {lvl_} getMass({label}) = {m_none}; the selection names nothing that is present", what="empty-selection", level=lvl_)
+                # overlapping entries in one selection (an element and one of its isotopes, a nuclide twice)
+                # name each nuclide once
+                ov = next((n for n in sorted(b_mass) if n.startswith("U2") or n.startswith("ZR9")), None)
+                if ov is not None and sum(b_mass.values()) > 0:
+                    elem = "U" if ov.startswith("U") else "ZR"
+                    f_e, f_l, f_2 = float(b.getMassFrac(elem)), float(b.getMassFrac([elem, ov])), float(b.getMassFrac([ov, ov]))
+                    if not rel(f_l, f_e, 1e-9) or not rel(f_2, float(b.getMassFrac(ov)), 1e-9):
+                        self.fail("C02.massfrac", f"step {k}: block getMassFrac(['{elem}', '{ov}']) = {f_l} but getMassFrac('{elem}') = {f_e}; getMassFrac(['{ov}', '{ov}']) = {f_2} but getMassFrac('{ov}') = {float(b.getMassFrac(ov))}", what="overlapping-selection", level="block")
                 tot = float(b.getMass())
                 if not rel(tot, sum(b_mass.values())):
                     self.fail("C02.additivity", f"step {k}: block total mass {tot} != sum over nuclides {sum(b_mass.values())}", what="total", level="block")
